@@ -17,7 +17,7 @@ from sympy import Integer
 
 from ..facts import Broken, pp, loc, walk
 from ..effects import Effects, callee
-from .. import sym, spec, blocks
+from .. import sym, spec, blocks, history
 from ..sym import Interp, Vec
 from ..model import spline_model
 from ..blocks import BlockRun
@@ -113,157 +113,159 @@ def run(chk):
     # ---- algebraic rules -------------------------------------------------------------------------------------
     for short in SPLINES:
         for cls in alg_classes(F, short, ("update", "propagateGrad")):
-            M = spline_model(F, cls)
-            s, K = M.s, M.K
-            I0, Lc, rows = c01.closure_rows(F, M)
-            i = Lc.var
-            roles = c01.deriv_roles(M, rows, i)
-            where = loc(M.solve_fn, {"line": Lc.line})
-            wt = {M.m_points: 0}
-            for d, (arr,) in roles.items():
-                if d >= 1:
-                    wt[arr.split("#")[0]] = -d
-            hs = [M.dur(i)]
-            for k in range(K):
-                r = norm_vec(rows[k])
-                psum = sum((c for a, c in r.t.items() if a[0] == M.m_points), Integer(0))
-                want = 1 if k == 0 else 0
-                chk.ob("C14-R2", "%s closure row c_%d: waypoint coefficients sum to %d (translation)" % (cls, k, want), sym.is_zero(psum - want), where, "sum = %s" % sp.simplify(psum),
-                       construct="%s/translation/c%d" % (cls, k))
+            def per_class(chk, short=short, cls=cls):
+                M = spline_model(F, cls)
+                s, K = M.s, M.K
+                I0, Lc, rows = c01.closure_rows(F, M)
+                i = Lc.var
+                roles = c01.deriv_roles(M, rows, i)
+                where = loc(M.solve_fn, {"line": Lc.line})
+                wt = {M.m_points: 0}
+                for d, (arr,) in roles.items():
+                    if d >= 1:
+                        wt[arr.split("#")[0]] = -d
+                hs = [M.dur(i)]
+                for k in range(K):
+                    r = norm_vec(rows[k])
+                    psum = sum((c for a, c in r.t.items() if a[0] == M.m_points), Integer(0))
+                    want = 1 if k == 0 else 0
+                    chk.ob("C14-R2", "%s closure row c_%d: waypoint coefficients sum to %d (translation)" % (cls, k, want), sym.is_zero(psum - want), where, "sum = %s" % sp.simplify(psum),
+                           construct="%s/translation/c%d" % (cls, k))
+                    bad = []
+                    for a, c in r.t.items():
+                        if a[0] not in wt:
+                            bad.append("unknown atom %s" % (a,))
+                            continue
+                        dg = hdeg(c, hs)
+                        if dg is None or dg == "zero" or dg + wt[a[0]] != -k:
+                            bad.append("%s: duration degree %s + weight %s != %d" % (sym.atom_str(a), dg, wt[a[0]], -k))
+                    chk.ob("C14-R4", "%s closure row c_%d has duration weight %d" % (cls, k, -k), not bad, where, "; ".join(bad[:3]), construct="%s/units/c%d" % (cls, k))
+                # energy: weight -(2s-1), no c_0 .. c_{s-1} rows
+                f = F.func1(cls, "getEnergy")
+                I = Interp(F, cls)
+                I.run_body(f, {})
+                L = I.loops[0]
+                acc = [e for e in L.effects if e.target.startswith("$")][0]
+                inc = M.expand_scalar(acc.delta)
+                terms, rest = sym.collect_dots(sp.expand(inc))
                 bad = []
-                for a, c in r.t.items():
-                    if a[0] not in wt:
-                        bad.append("unknown atom %s" % (a,))
-                        continue
-                    dg = hdeg(c, hs)
-                    if dg is None or dg == "zero" or dg + wt[a[0]] != -k:
-                        bad.append("%s: duration degree %s + weight %s != %d" % (sym.atom_str(a), dg, wt[a[0]], -k))
-                chk.ob("C14-R4", "%s closure row c_%d has duration weight %d" % (cls, k, -k), not bad, where, "; ".join(bad[:3]), construct="%s/units/c%d" % (cls, k))
-            # energy: weight -(2s-1), no c_0 .. c_{s-1} rows
-            f = F.func1(cls, "getEnergy")
-            I = Interp(F, cls)
-            I.run_body(f, {})
-            L = I.loops[0]
-            acc = [e for e in L.effects if e.target.startswith("$")][0]
-            inc = M.expand_scalar(acc.delta)
-            terms, rest = sym.collect_dots(sp.expand(inc))
-            bad = []
-            lowrows = set()
-            for (a, b), c in terms.items():
-                ka, kb = sp.expand(a[1] - K * L.var), sp.expand(b[1] - K * L.var)
-                dg = hdeg(c, [M.dur(L.var)])
-                if dg is None or dg - ka - kb != -(2 * s - 1):
-                    bad.append("<c_%s|c_%s>: %s" % (ka, kb, dg))
-                lowrows |= {int(ka), int(kb)}
-            chk.ob("C14-R4", "%s energy has duration weight -(2s-1) = %d" % (cls, -(2 * s - 1)), not bad and rest == 0, loc(f), "; ".join(bad[:3]), construct="%s/units/energy" % cls)
-            chk.ob("C14-R2", "%s energy never reads a c_0 row (translation invariance)" % cls, 0 not in lowrows, loc(f), "rows used: %s" % sorted(lowrows), construct="%s/translation/energy" % cls)
-            for gname in ("getEnergyGradTimes", "getEnergyGradInnerPoints", "getEnergyGradBoundary", "getEnergyPartialGradByTimes"):
-                gs = [g for g in F.funcs(cls, gname) if len(g["params"]) <= 1]
-                for g in gs[:1]:
-                    used = set()
-                    for n in walk(g["body"]):
-                        if n.get("k") == "call" and callee(n).get("name") == "row" and is_this_mem(n.get("obj"), M.m_coeffs):
-                            used.add(pp(n["args"][0]))
-                    zero_rows = [u for u in used if row_offset(u, K) == 0]
-                    chk.ob("C14-R2", "%s::%s never reads a c_0 row" % (cls, gname), not zero_rows, loc(g), "rows %s" % sorted(used), construct="%s/translation/%s" % (cls, gname))
-            # system rows
-            if short == "CubicSplineND":
-                CR = c02.cubic_rows(F, M)
-                m = sp.Symbol("m", integer=True, positive=True)
-                rowm = CR["interior"](m)
-                psum = sum((c for a, c in rowm.t.items() if a[0] == M.m_points), Integer(0))
-                chk.ob("C14-R2", "%s system row: waypoint coefficients sum to 0" % cls, sym.is_zero(psum), loc(M.solve_fn), str(sp.simplify(psum)), construct="%s/translation/system" % cls)
-                hsm = [M.dur(m - 1), M.dur(m)]
-                wts = set()
-                ok = True
-                for a, c in rowm.t.items():
-                    dg = hdeg(c, hsm)
-                    w_ = wt.get(a[0], wt.get(CR["arr"]))
-                    if a[0] == CR["arr"]:
-                        w_ = -2
-                    if dg is None:
-                        ok = False
-                    else:
-                        wts.add(dg + w_)
-                chk.ob("C14-R4", "%s system row is homogeneous in the duration weights" % cls, ok and len(wts) == 1, loc(M.solve_fn), "weights %s" % wts, construct="%s/units/system" % cls)
-                # mirror: lower_i(h) = upper_{i-1}(h)  and diagonal symmetric
-                iv = CR["var"]
-                lo, up = CR["lower"], CR["upper"]
-                okm = sym.is_zero(lo - up.subs(iv, iv - 1))
-                chk.ob("C14-R5", "%s tridiagonal matrix is symmetric (lower_i = upper_{i-1})" % cls, okm, loc(M.solve_fn), "lower %s upper %s" % (lo, up), construct="%s/mirror/offdiag" % cls)
-                diag = rowm.coeff((CR["arr"], sp.expand(m)))
-                swapped = diag.xreplace({M.dur(m - 1): M.dur(m), M.dur(m): M.dur(m - 1)})
-                chk.ob("C14-R5", "%s diagonal entry is symmetric in the two adjacent durations" % cls, sym.is_zero(diag - swapped), loc(M.solve_fn), str(diag), construct="%s/mirror/diag" % cls)
-                # first and last rows mirror each other
-                n = sp.Symbol(M.m_count, integer=True, positive=True)
-                a0 = CR["row0"].coeff((CR["arr"], Integer(0)))
-                c0 = CR["row0"].coeff((CR["arr"], Integer(1)))
-                an = CR["rown"].coeff((CR["arr"], n))
-                bn = CR["rown"].coeff((CR["arr"], sp.expand(n - 1)))
-                x = sp.Symbol("x_h", positive=True)
-                okf = sym.is_zero(a0.subs(M.dur(0), x) - an.subs(M.dur(n - 1), x)) and sym.is_zero(c0.subs(M.dur(0), x) - bn.subs(M.dur(n - 1), x))
-                chk.ob("C14-R5", "%s first and last rows are mirror images" % cls, okf, loc(M.solve_fn), "(%s, %s) vs (%s, %s)" % (a0, c0, an, bn), construct="%s/mirror/ends" % cls)
-            else:
-                B = BlockRun(F, M, "middle")
-                b = s - 1
-                bi = B.i
-                hL, hR = M.dur(bi), M.dur(bi + 1)
-                Lm = sp.Matrix(b, b, lambda r, c: M.expand_scalar(B.L.e[r][c]))
-                Um = sp.Matrix(b, b, lambda r, c: M.expand_scalar(B.U.e[r][c]))
-                Dm = sp.Matrix(b, b, lambda r, c: M.expand_scalar(B.D0.e[r][c]))
-                # translation: rhs rows in difference form
-                for a in range(b):
-                    v = B.rhs_final[a]
-                    plain = Vec({k: c for k, c in v.t.items() if str(k[0]).split("#")[0] != B.rhs_name})
-                    pv = norm_vec(M.expand_vec(plain))
-                    psum = sum((M.expand_scalar(c) for at, c in pv.t.items() if at[0] == M.m_points), Integer(0))
-                    chk.ob("C14-R2", "%s system right-hand side row %d: waypoint coefficients sum to 0" % (cls, a), sym.is_zero(psum), loc(B.fn), str(sp.simplify(psum)), construct="%s/translation/rhs%d" % (cls, a))
-                    # units: unknown j has weight -(j+1)
+                lowrows = set()
+                for (a, b), c in terms.items():
+                    ka, kb = sp.expand(a[1] - K * L.var), sp.expand(b[1] - K * L.var)
+                    dg = hdeg(c, [M.dur(L.var)])
+                    if dg is None or dg - ka - kb != -(2 * s - 1):
+                        bad.append("<c_%s|c_%s>: %s" % (ka, kb, dg))
+                    lowrows |= {int(ka), int(kb)}
+                chk.ob("C14-R4", "%s energy has duration weight -(2s-1) = %d" % (cls, -(2 * s - 1)), not bad and rest == 0, loc(f), "; ".join(bad[:3]), construct="%s/units/energy" % cls)
+                chk.ob("C14-R2", "%s energy never reads a c_0 row (translation invariance)" % cls, 0 not in lowrows, loc(f), "rows used: %s" % sorted(lowrows), construct="%s/translation/energy" % cls)
+                for gname in ("getEnergyGradTimes", "getEnergyGradInnerPoints", "getEnergyGradBoundary", "getEnergyPartialGradByTimes"):
+                    gs = [g for g in F.funcs(cls, gname) if len(g["params"]) <= 1]
+                    for g in gs[:1]:
+                        used = set()
+                        for n in walk(g["body"]):
+                            if n.get("k") == "call" and callee(n).get("name") == "row" and is_this_mem(n.get("obj"), M.m_coeffs):
+                                used.add(pp(n["args"][0]))
+                        zero_rows = [u for u in used if row_offset(u, K) == 0]
+                        chk.ob("C14-R2", "%s::%s never reads a c_0 row" % (cls, gname), not zero_rows, loc(g), "rows %s" % sorted(used), construct="%s/translation/%s" % (cls, gname))
+                # system rows
+                if short == "CubicSplineND":
+                    CR = c02.cubic_rows(F, M)
+                    m = sp.Symbol("m", integer=True, positive=True)
+                    rowm = CR["interior"](m)
+                    psum = sum((c for a, c in rowm.t.items() if a[0] == M.m_points), Integer(0))
+                    chk.ob("C14-R2", "%s system row: waypoint coefficients sum to 0" % cls, sym.is_zero(psum), loc(M.solve_fn), str(sp.simplify(psum)), construct="%s/translation/system" % cls)
+                    hsm = [M.dur(m - 1), M.dur(m)]
                     wts = set()
                     ok = True
-                    for j in range(b):
-                        for mat in (Lm, Dm, Um):
-                            if mat[a, j] != 0:
-                                dg = hdeg(mat[a, j], [hL, hR])
-                                if dg is None:
-                                    ok = False
-                                else:
-                                    wts.add(dg - (j + 1))
-                    for at, c in pv.t.items():
-                        dg = hdeg(M.expand_scalar(c), [hL, hR])
+                    for a, c in rowm.t.items():
+                        dg = hdeg(c, hsm)
+                        w_ = wt.get(a[0], wt.get(CR["arr"]))
+                        if a[0] == CR["arr"]:
+                            w_ = -2
                         if dg is None:
                             ok = False
                         else:
-                            wts.add(dg + 0)
-                    chk.ob("C14-R4", "%s system row %d is homogeneous in the duration weights" % (cls, a), ok and len(wts) == 1, loc(B.fn), "weights %s" % sorted(wts), construct="%s/units/system%d" % (cls, a))
-                # mirror symmetry
-                x = sp.Symbol("x_h", positive=True)
-                S_ = sp.diag(*[(-1) ** (j + 1) for j in range(b)])   # unknown j is the derivative of order j+1: odd orders change sign under time reversal
-                found = None
-                for signs in itertools.product((1, -1), repeat=b):
-                    R_ = sp.diag(*signs)
-                    okU = (Um.subs(hR, x) - R_ * S_ * Lm.subs(hL, x) * S_).applyfunc(sp.simplify) == sp.zeros(b, b)
-                    Dsw = Dm.xreplace({hL: hR, hR: hL})
-                    okD = (Dsw - R_ * S_ * Dm * S_).applyfunc(sp.simplify) == sp.zeros(b, b)
-                    if okU and okD:
-                        found = signs
-                        break
-                chk.ob("C14-R5", "%s blocks are mirror images: U(h) = R S L(h) S and D(h_R,h_L) = R S D(h_L,h_R) S" % cls, found is not None, loc(B.fn),
-                       "S = diag%s, R = diag%s" % (tuple((-1) ** (j + 1) for j in range(b)), found), construct="%s/mirror/blocks" % cls)
-                if found is not None:
-                    # right-hand side under reversal: swap h_L <-> h_R and P_{m-1} <-> P_{m+1}
-                    okr = True
+                            wts.add(dg + w_)
+                    chk.ob("C14-R4", "%s system row is homogeneous in the duration weights" % cls, ok and len(wts) == 1, loc(M.solve_fn), "weights %s" % wts, construct="%s/units/system" % cls)
+                    # mirror: lower_i(h) = upper_{i-1}(h)  and diagonal symmetric
+                    iv = CR["var"]
+                    lo, up = CR["lower"], CR["upper"]
+                    okm = sym.is_zero(lo - up.subs(iv, iv - 1))
+                    chk.ob("C14-R5", "%s tridiagonal matrix is symmetric (lower_i = upper_{i-1})" % cls, okm, loc(M.solve_fn), "lower %s upper %s" % (lo, up), construct="%s/mirror/offdiag" % cls)
+                    diag = rowm.coeff((CR["arr"], sp.expand(m)))
+                    swapped = diag.xreplace({M.dur(m - 1): M.dur(m), M.dur(m): M.dur(m - 1)})
+                    chk.ob("C14-R5", "%s diagonal entry is symmetric in the two adjacent durations" % cls, sym.is_zero(diag - swapped), loc(M.solve_fn), str(diag), construct="%s/mirror/diag" % cls)
+                    # first and last rows mirror each other
+                    n = sp.Symbol(M.m_count, integer=True, positive=True)
+                    a0 = CR["row0"].coeff((CR["arr"], Integer(0)))
+                    c0 = CR["row0"].coeff((CR["arr"], Integer(1)))
+                    an = CR["rown"].coeff((CR["arr"], n))
+                    bn = CR["rown"].coeff((CR["arr"], sp.expand(n - 1)))
+                    x = sp.Symbol("x_h", positive=True)
+                    okf = sym.is_zero(a0.subs(M.dur(0), x) - an.subs(M.dur(n - 1), x)) and sym.is_zero(c0.subs(M.dur(0), x) - bn.subs(M.dur(n - 1), x))
+                    chk.ob("C14-R5", "%s first and last rows are mirror images" % cls, okf, loc(M.solve_fn), "(%s, %s) vs (%s, %s)" % (a0, c0, an, bn), construct="%s/mirror/ends" % cls)
+                else:
+                    B = BlockRun(F, M, "middle")
+                    b = s - 1
+                    bi = B.i
+                    hL, hR = M.dur(bi), M.dur(bi + 1)
+                    Lm = sp.Matrix(b, b, lambda r, c: M.expand_scalar(B.L.e[r][c]))
+                    Um = sp.Matrix(b, b, lambda r, c: M.expand_scalar(B.U.e[r][c]))
+                    Dm = sp.Matrix(b, b, lambda r, c: M.expand_scalar(B.D0.e[r][c]))
+                    # translation: rhs rows in difference form
                     for a in range(b):
                         v = B.rhs_final[a]
-                        plain = norm_vec(M.expand_vec(Vec({k: c for k, c in v.t.items() if str(k[0]).split("#")[0] != B.rhs_name})))
-                        mir = Vec()
-                        for at, c in plain.t.items():
-                            off = sp.expand(at[1] - bi)
-                            at2 = (at[0], sp.expand(bi + 2 - off))
-                            mir = mir.add(Vec({at2: M.expand_scalar(c).xreplace({hL: hR, hR: hL})}))
-                        plain_e = Vec({at: M.expand_scalar(c) for at, c in plain.t.items()})
-                        okr = okr and all(sym.is_zero(c) for c in mir.add(plain_e.scale(found[a] * (-1) ** (a + 1)), -1).t.values())
-                    chk.ob("C14-R5", "%s right-hand side rows are mirror images under reversal (r_mirrored = R S r)" % cls, okr, loc(B.fn), "", construct="%s/mirror/rhs" % cls)
+                        plain = Vec({k: c for k, c in v.t.items() if str(k[0]).split("#")[0] != B.rhs_name})
+                        pv = norm_vec(M.expand_vec(plain))
+                        psum = sum((M.expand_scalar(c) for at, c in pv.t.items() if at[0] == M.m_points), Integer(0))
+                        chk.ob("C14-R2", "%s system right-hand side row %d: waypoint coefficients sum to 0" % (cls, a), sym.is_zero(psum), loc(B.fn), str(sp.simplify(psum)), construct="%s/translation/rhs%d" % (cls, a))
+                        # units: unknown j has weight -(j+1)
+                        wts = set()
+                        ok = True
+                        for j in range(b):
+                            for mat in (Lm, Dm, Um):
+                                if mat[a, j] != 0:
+                                    dg = hdeg(mat[a, j], [hL, hR])
+                                    if dg is None:
+                                        ok = False
+                                    else:
+                                        wts.add(dg - (j + 1))
+                        for at, c in pv.t.items():
+                            dg = hdeg(M.expand_scalar(c), [hL, hR])
+                            if dg is None:
+                                ok = False
+                            else:
+                                wts.add(dg + 0)
+                        chk.ob("C14-R4", "%s system row %d is homogeneous in the duration weights" % (cls, a), ok and len(wts) == 1, loc(B.fn), "weights %s" % sorted(wts), construct="%s/units/system%d" % (cls, a))
+                    # mirror symmetry
+                    x = sp.Symbol("x_h", positive=True)
+                    S_ = sp.diag(*[(-1) ** (j + 1) for j in range(b)])   # unknown j is the derivative of order j+1: odd orders change sign under time reversal
+                    found = None
+                    for signs in itertools.product((1, -1), repeat=b):
+                        R_ = sp.diag(*signs)
+                        okU = (Um.subs(hR, x) - R_ * S_ * Lm.subs(hL, x) * S_).applyfunc(sp.simplify) == sp.zeros(b, b)
+                        Dsw = Dm.xreplace({hL: hR, hR: hL})
+                        okD = (Dsw - R_ * S_ * Dm * S_).applyfunc(sp.simplify) == sp.zeros(b, b)
+                        if okU and okD:
+                            found = signs
+                            break
+                    chk.ob("C14-R5", "%s blocks are mirror images: U(h) = R S L(h) S and D(h_R,h_L) = R S D(h_L,h_R) S" % cls, found is not None, loc(B.fn),
+                           "S = diag%s, R = diag%s" % (tuple((-1) ** (j + 1) for j in range(b)), found), construct="%s/mirror/blocks" % cls)
+                    if found is not None:
+                        # right-hand side under reversal: swap h_L <-> h_R and P_{m-1} <-> P_{m+1}
+                        okr = True
+                        for a in range(b):
+                            v = B.rhs_final[a]
+                            plain = norm_vec(M.expand_vec(Vec({k: c for k, c in v.t.items() if str(k[0]).split("#")[0] != B.rhs_name})))
+                            mir = Vec()
+                            for at, c in plain.t.items():
+                                off = sp.expand(at[1] - bi)
+                                at2 = (at[0], sp.expand(bi + 2 - off))
+                                mir = mir.add(Vec({at2: M.expand_scalar(c).xreplace({hL: hR, hR: hL})}))
+                            plain_e = Vec({at: M.expand_scalar(c) for at, c in plain.t.items()})
+                            okr = okr and all(sym.is_zero(c) for c in mir.add(plain_e.scale(found[a] * (-1) ** (a + 1)), -1).t.values())
+                        chk.ob("C14-R5", "%s right-hand side rows are mirror images under reversal (r_mirrored = R S r)" % cls, okr, loc(B.fn), "", construct="%s/mirror/rhs" % cls)
+            history.for_each_outcome(chk, per_class)
     chk.floor("C14-R2", 30)
     chk.floor("C14-R4", 25)
     chk.floor("C14-R5", 6)
